@@ -21,13 +21,13 @@ def isArrScalar : FieldDecl → Bool
   | .integer _ | .number _ | .float _ | .string _ _ _ | .boolean | .noneF => true
   | _ => false
 
-/-- Set items the trusted branch turns into a set as they are -/
+/-- Set items the trusted branch turns into a set as they are (`set(v)`) -/
 def isSetScalarOk : FieldDecl → Bool
-  | .integer _ | .float _ | .string _ _ _ | .boolean => true
+  | .integer _ | .number _ | .float _ | .string _ _ _ | .boolean => true
   | _ => false
 
-/-- the non-None option of `AnyOf[NoneField, X]` is never looked at: fine only for scalars the
-    regular path stores unchanged -/
+/-- scalars the regular path stores unchanged: the options of a non-optional `AnyOf`, which the
+    trusted branch never looks at -/
 def isRawScalar : FieldDecl → Bool
   | .integer _ | .number _ | .float _ | .string _ _ _ | .boolean | .enumLit _ => true
   | _ => false
@@ -47,11 +47,12 @@ def tsafeD : FieldDecl → Bool
   | .noneF => true
   | .enumLit _ => true
   | .enumCls _ names => !names.contains ""
-  | .seqOf .list item _ => isArrScalar item || (isClassRef item && tsafeD item)
+  | .seqOf .list item _ =>
+    isArrScalar item || (isEnumDecl item && tsafeD item) || (isClassRef item && tsafeD item)
   | .seqOf .deque _ _ => false
-  | .setOf _ item _ => isSetScalarOk item
+  | .setOf _ item _ => isSetScalarOk item || (isEnumDecl item && tsafeD item)
   | .struct c fields _ =>
-    !c.inline && strNodup (fields.map (·.1)) && !classCrash fields && tsafeFields fields
+    !c.inline && strNodup (fields.map (·.1)) && tsafeFields fields
   | .anyOf _ => false
   | .seqAny _ _ => false
   | .seqPos _ _ _ _ => false
@@ -66,21 +67,30 @@ def tsafeD : FieldDecl → Bool
   | .anything => false
 termination_by structural f => f
 
-/-- the options of an optional `AnyOf`: `[X, NoneField]` with `X` safe (and not a Set), or
-    `[NoneField, X]` with `X` a scalar stored unchanged -/
+/-- the options of an optional `AnyOf`: `[X, NoneField]` or `[NoneField, X]` with `X` safe (and
+    not a Set: an ImmutableSet option refuses the plain set the trusted instance holds) -/
 def tsafeOpt : List FieldDecl → Bool
   | [] => false
   | x :: rest =>
     (match rest with
-      | [y] => (isNoneF y && tsafeD x && !isSetDecl x) || (isNoneF x && isRawScalar y)
+      | [y] => (isNoneF y && tsafeD x && !isSetDecl x)
+               || (isNoneF x && !isNoneF y && tsafeOptTail rest)
       | _ => false)
+termination_by structural fs => fs
+
+def tsafeOptTail : List FieldDecl → Bool
+  | [] => false
+  | y :: _ => tsafeD y && !isSetDecl y
 termination_by structural fs => fs
 
 def tsafeFields : List (String × FieldDecl) → Bool
   | [] => true
   | (_, f) :: rest =>
     (match f with
-      | .anyOf fs => tsafeOpt fs
+      | .anyOf fs =>
+        -- optional: through the non-None option; any other `AnyOf` is kept raw, which is what the
+        -- regular path stores when every option is a scalar stored unchanged
+        if isOptAnyOf fs then tsafeOpt fs else fs.all (fun g => isRawScalar g || isNoneF g)
       | g => tsafeD g) && tsafeFields rest
 termination_by structural fs => fs
 end
@@ -158,29 +168,17 @@ def plainDoc (opts : DeserOpts) (cls : FieldDecl) (d : PyVal) : Bool := plainV o
 
 /-! ### names of the known defects (driver only; no theorem depends on these) -/
 
+/-- what the non-None option of an optional `AnyOf` adds -/
 def optDefect (fs : List FieldDecl) : List String :=
-  match fs with
-  | [x, y] =>
-    if isNoneF y then
-      (match x with
-        | .enumLit _ => ["crash:enum-mapping"]
-        | .setOf imm _ _ =>
-          -- the trusted instance holds a plain set: an ImmutableSet option no longer validates it
-          if imm then ["unnormalised:optional-immutable-set"] else ["optional-set:unproved"]
-        | .setAny _ _ => ["dropped:set-items"]
-        | .struct c _ _ => if c.inline then ["optional-unchecked:non-none-option"] else []
-        | .seqOf .list _ _ => []
-        | .integer _ | .number _ | .float _ | .string _ _ _ | .boolean | .enumCls _ _ => []
-        | _ => ["optional-unchecked:non-none-option"])
-    else if isNoneF x then (if isRawScalar y then [] else ["optional-unchecked:none-first"])
-    else ["crash:enum-mapping"]
-  | _ =>
-    if fs.any isNoneF then
-      (match fs with
-        | .enumCls _ _ :: _ => ["crash:enum-mapping"]      -- `EnumClass[value]` on any truthy value
-        | .enumLit _ :: _ => ["crash:enum-mapping"]
-        | _ => ["anyof-with-none:unproved"])
-    else ["crash:enum-mapping"]
+  if isOptAnyOf fs then
+    (match optPick fs with
+      | .setOf imm _ _ =>
+        -- the trusted instance holds a plain set: an ImmutableSet option no longer validates it
+        if imm then ["unnormalised:optional-immutable-set"] else ["optional-set:unproved"]
+      | _ => [])
+  else if fs.all (fun g => isRawScalar g || isNoneF g) then []
+  else if fs.all isValidCls then ["unnormalised:anyof-enum"]      -- an Enum class option: names stay strings
+  else ["ineligible-shape"]
 
 mutual
 /-- the known defects a field declaration runs into -/
@@ -188,16 +186,16 @@ def defectsD : FieldDecl → List String
   | .enumCls _ names => if names.contains "" then ["enum:empty-name"] else []
   | .seqOf .list item _ =>
     if isArrScalar item then []
-    else if isEnumDecl item then ["unnormalised:array-of-enum"]
+    else if isEnumDecl item then defectsD item
     else if isClassRef item then defectsD item
     else ["ineligible-shape"]
   | .setOf _ item _ =>
     if isSetScalarOk item then []
-    else if isEnumDecl item then "set-of-enum:unproved" :: defectsD item
+    else if isEnumDecl item then defectsD item
     else if isClassRef item then "none-attribute-hash:set-of-structures" :: defectsD item
-    else if isSetScalar item then ["set-of-none:unproved"]
-    else ["dropped:set-items"]
-  | .setAny _ _ => ["dropped:set-items"]
+    else if isNoneF item then ["set-of-none:unproved"]
+    else ["ineligible-shape"]
+  | .setAny _ _ => ["ineligible-shape"]
   | .struct c fields _ =>
     if c.inline then ["ineligible-shape"]
     else (if strNodup (fields.map (·.1)) then [] else ["duplicate-field-names"]) ++ defectsFields fields
@@ -222,18 +220,20 @@ def defectsD : FieldDecl → List String
   | .anything => ["ineligible-shape"]
 termination_by structural f => f
 
+/-- the defects of the non-None option of an optional `AnyOf` -/
 def defectsHead : List FieldDecl → List String
   | [] => []
-  | x :: _ =>
-    -- a shape the classifier would refuse, reached through the unchecked option
-    (defectsD x).map fun t => if t == "ineligible-shape" then "optional-unchecked:non-none-option" else t
+  | x :: rest =>
+    (match rest with
+      | [y] => if isNoneF y then defectsD x else defectsD y
+      | _ => [])
 termination_by structural fs => fs
 
 def defectsFields : List (String × FieldDecl) → List String
   | [] => []
   | (_, f) :: rest =>
     (match f with
-      | .anyOf fs => optDefect fs ++ defectsHead fs
+      | .anyOf fs => optDefect fs ++ (if isOptAnyOf fs then defectsHead fs else [])
       | g => defectsD g) ++ defectsFields rest
 termination_by structural fs => fs
 end
